@@ -68,7 +68,7 @@ def _worker(prop, vseed, indices, outfile, deadline, overrides):
     agg = {"runs": 0, "steps": 0, "ops": {}, "faults_fired": {}, "interrupt_sites": {}, "status": {}, "probes": {},
            "disk_probes": {}, "ref_forks": 0, "o1_compared": 0, "o3_groups": 0, "nontrivial": 0,
            "sched_sigs": set(), "share_sigs": set(), "skipped_deadline": 0, "harness_errors": [], "samples": [],
-           "fault_runs": 0, "faultfree_runs": 0, "store_states": set(), "discarded": {}, "faults_placed": {}}
+           "fault_runs": 0, "faultfree_runs": 0, "store_states": set(), "discarded": {}, "faults_placed": {}, "cov": set(), "cov_runs": 0}
     seen_sigs = {}
     with open(outfile, "w") as out:
         for i in indices:
@@ -78,7 +78,12 @@ def _worker(prop, vseed, indices, outfile, deadline, overrides):
             seed = run_seed(vseed, "", prop, i)
             try:
                 plan = cli.gen_plan(prop, seed, overrides)
-                res = isolate.execute(plan)
+                # line coverage of the library is measured on a sample of fault-free runs (every 25th run index)
+                want_cov = (i % 8 == 0) and not any(s.get("fault") for s in _all(plan))
+                res = isolate.execute(plan, coverage=want_cov)
+                if want_cov:
+                    agg["cov_runs"] += 1
+                    agg["cov"].update(tuple(x) for x in res["coverage"])
             except Exception as e:
                 agg["harness_errors"].append({"i": i, "seed": seed, "error": f"{type(e).__name__}: {str(e)[:2000]}"})
                 continue
@@ -132,7 +137,13 @@ def _worker(prop, vseed, indices, outfile, deadline, overrides):
             out.write(json.dumps(line) + "\n")
         for k in ("sched_sigs", "share_sigs", "store_states"):
             agg[k] = sorted(agg[k])
+        agg["cov"] = sorted(agg["cov"])
         out.write(json.dumps({"agg": agg}) + "\n")
+
+
+def _all(plan):
+    from . import engine
+    return engine.index_steps(plan).values()
 
 
 def reach_of(plan, res):
@@ -225,8 +236,10 @@ def merge_aggs(aggs):
     m = {"runs": 0, "steps": 0, "ops": {}, "faults_fired": {}, "interrupt_sites": {}, "status": {}, "probes": {},
          "disk_probes": {}, "ref_forks": 0, "o1_compared": 0, "o3_groups": 0, "nontrivial": 0, "sched_sigs": set(),
          "share_sigs": set(), "skipped_deadline": 0, "harness_errors": [], "samples": [], "fault_runs": 0,
-         "faultfree_runs": 0, "store_states": set(), "discarded": {}, "faults_placed": {}}
+         "faultfree_runs": 0, "store_states": set(), "discarded": {}, "faults_placed": {}, "cov": set(), "cov_runs": 0}
     for a in aggs:
+        m["cov"].update(tuple(x) for x in a.get("cov", []))
+        m["cov_runs"] += a.get("cov_runs", 0)
         for k in ("runs", "steps", "ref_forks", "o1_compared", "o3_groups", "nontrivial", "skipped_deadline", "fault_runs", "faultfree_runs"):
             m[k] += a[k]
         for k in ("ops", "faults_fired", "interrupt_sites", "status", "disk_probes", "discarded", "faults_placed"):
@@ -493,6 +506,7 @@ def write_evidence(prop, tier, vseed, agg, aggB, pair_checked, n_new, known_hits
             "isolated_reference_forks": agg["ref_forks"], "o1_comparisons": agg["o1_compared"], "o3_repeat_groups": agg["o3_groups"],
             "hashseed_pairs_compared": pair_checked, "hashseeds": ["0", SECOND_HASHSEED],
             "discarded": agg["discarded"],
+            "library_line_coverage": line_coverage(agg),
             "known_findings_seen": {k: v[0] for k, v in known_hits.items()},
             "harness_errors": len(harness),
             "simulated_time": "none - the code under test reads no clock; steps are the unit",
@@ -508,6 +522,39 @@ def write_evidence(prop, tier, vseed, agg, aggB, pair_checked, n_new, known_hits
         "wall_s": round(wall, 2), "violations": n_new,
     }
     json.dump(ev, open(os.path.join(HERE, "evidence", f"{prop}.json"), "w"), indent=1)
+
+
+def line_coverage(agg):
+    """distinct executable lines inside function bodies of the library reached by a sample of fault-free runs
+    (files never entered are not listed; import-time lines are not counted)"""
+    src = os.environ.get("VERIF_REPO_SRC", "/repo/src")
+    by_file = {}
+    for f, ln in agg["cov"]:
+        by_file.setdefault(f, set()).add(ln)
+    out = {"sampled_runs": agg["cov_runs"], "files": {}}
+    tot_hit = tot_all = 0
+    for f in sorted(by_file):
+        try:
+            code = compile(open(os.path.join(src, f)).read(), f, "exec")
+        except Exception:
+            continue
+        lines = set()
+
+        def walk(c):
+            if c.co_flags & 0x1:          # CO_OPTIMIZED: function / lambda / comprehension bodies (not import-time code)
+                for _, _, ln in c.co_lines():
+                    if ln and ln != c.co_firstlineno:
+                        lines.add(ln)
+            for k in c.co_consts:
+                if hasattr(k, "co_lines"):
+                    walk(k)
+        walk(code)
+        hit = len(by_file[f] & lines)
+        out["files"][f] = [hit, len(lines)]
+        tot_hit += hit
+        tot_all += len(lines)
+    out["total"] = [tot_hit, tot_all]
+    return out
 
 
 # =========================================================================== setup / selftests
